@@ -412,9 +412,9 @@ def replay(mod: Any, path: str, which: str = "plan") -> int:
     print(f"REPLAY digest={res.get('digest')} expected={want_digest}")
     if sig in sigs:
         if want_digest and res.get("digest") != want_digest:
-            print("REPLAY reproduced the violation but the event-log digest differs")
-            print(f"VIOLATION property={mod.PROP} replay={path}")
-            return 4
+            print("REPLAY note: same violation signature, but the event-log digest differs from "
+                  "the recorded one: the code under test depends on something outside the plan "
+                  "(e.g. object addresses / allocator state)")
         print(f"REPLAY reproduced sig={sig}")
         print(f"VIOLATION property={mod.PROP} replay={path}")
         return 1
@@ -425,9 +425,14 @@ def replay(mod: Any, path: str, which: str = "plan") -> int:
 def _confirm_in_fresh_process(prop: str, path: str, which: str) -> int:
     cmd = [env.PYTHON, os.path.join(env.VERIF_ROOT, "bin", "check"), prop, "--replay", path,
            "--which", which]
-    p = subprocess.run(cmd, capture_output=True, text=True, timeout=600,
-                       env={**os.environ, "VERIF_REPO": env.REPO})
-    return p.returncode
+    rc = 0
+    for _attempt in range(3):  # >1 only matters for address-dependent (allocator-chaotic) bugs
+        p = subprocess.run(cmd, capture_output=True, text=True, timeout=600,
+                           env={**os.environ, "VERIF_REPO": env.REPO})
+        rc = p.returncode
+        if rc == 1:
+            return 1
+    return rc
 
 
 # --------------------------------------------------------------------------------------------
